@@ -245,26 +245,34 @@ Can(h, n) == h.all \/ n \in h.s
 Complete == [all |-> TRUE, s |-> {}]
 Only(S) == [all |-> FALSE, s |-> S]
 
-Out(kind, n, trav, tail) == [kind |-> kind, n |-> n, trav |-> trav, tail |-> tail]
-RECURSIVE Trav(_, _, _, _)
-Hop(child, rem, trav, h) ==
-  IF IsHashed(child) /\ ~Can(h, child) THEN Out("missing", child, trav, rem)
-  ELSE Trav(child, rem, trav, h)
-Trav(n, rem, trav, h) ==
-  IF rem = <<>> THEN Out("node", n, trav, <<>>)
-  ELSE CASE n.t = "blank" -> Out("node", Blank, trav, <<>>)
-         [] n.t = "leaf" -> IF StartsWith(n.p, rem) THEN Out("partial", n, trav, rem)
-                            ELSE Out("node", Blank, trav, <<>>)
+\* outcome of a traversal: kind "node" | "partial" | "missing"; n the node reached
+\* (the enclosing leaf/extension for "partial", the unreadable node for "missing");
+\* trav the nibbles consumed; tail what is left of the path; hops / reads the number
+\* of child hops made and of database reads among them (hashed children)
+Out(kind, n, trav, tail, c) == [kind |-> kind, n |-> n, trav |-> trav, tail |-> tail,
+                                hops |-> c[1], reads |-> c[2]]
+RECURSIVE Trav(_, _, _, _, _)
+Hop(child, rem, trav, h, c) ==
+  LET c2 == <<c[1] + 1, c[2] + (IF IsHashed(child) THEN 1 ELSE 0)>> IN
+  IF IsHashed(child) /\ ~Can(h, child) THEN Out("missing", child, trav, rem, c2)
+  ELSE Trav(child, rem, trav, h, c2)
+Trav(n, rem, trav, h, c) ==
+  IF rem = <<>> THEN Out("node", n, trav, <<>>, c)
+  ELSE CASE n.t = "blank" -> Out("node", Blank, trav, <<>>, c)
+         [] n.t = "leaf" -> IF StartsWith(n.p, rem) THEN Out("partial", n, trav, rem, c)
+                            ELSE Out("node", Blank, trav, <<>>, c)
          [] n.t = "ext" -> IF StartsWith(rem, n.p)
-                           THEN Hop(n.c[1], Drop(rem, Len(n.p)), trav \o n.p, h)
-                           ELSE IF StartsWith(n.p, rem) THEN Out("partial", n, trav, rem)
-                           ELSE Out("node", Blank, trav, <<>>)
-         [] n.t = "branch" -> Hop(n.c[Head(rem) + 1], Tail(rem), trav \o <<Head(rem)>>, h)
+                           THEN Hop(n.c[1], Drop(rem, Len(n.p)), trav \o n.p, h, c)
+                           ELSE IF StartsWith(n.p, rem) THEN Out("partial", n, trav, rem, c)
+                           ELSE Out("node", Blank, trav, <<>>, c)
+         [] n.t = "branch" -> Hop(n.c[Head(rem) + 1], Tail(rem), trav \o <<Head(rem)>>, h, c)
 
 \* traverse(path) on the trie with root r: the root itself is read first
 TravRoot(r, path, h) ==
-  IF r.t # "blank" /\ ~Can(h, r) THEN Out("missing", r, <<>>, path)
-  ELSE Trav(r, path, <<>>, h)
+  IF r.t # "blank" /\ ~Can(h, r) THEN Out("missing", r, <<>>, path, <<0, 1>>)
+  ELSE Trav(r, path, <<>>, h, <<0, IF r.t = "blank" THEN 0 ELSE 1>>)
+\* traverse_from(node, seg): the node body is in hand, nothing is read for it
+TravFrom(n, seg, h) == Trav(n, seg, <<>>, h, <<0, 0>>)
 
 \* simulated node of a partial traversal (exceptions.py _make_simulated_node)
 Sim(o) == IF o.n.t = "leaf" THEN MkLeaf(Drop(o.n.p, Len(o.tail)), o.n.v)
@@ -325,6 +333,57 @@ NeededNodes(r, k) == IF r.t = "blank" THEN {}
 VerifyProof(r, k, Pset, bugs) ==
   LET g == GetOut(r, k, Only(Pset), bugs) IN
   IF g.kind = "missing" THEN [kind |-> "bad", v |-> NoVal] ELSE [kind |-> g.kind, v |-> g.v]
+
+\* ------------------------------------------------------------------------
+\* DEFINITION (C08), from the key set alone: what a traversal of path p must
+\* report on the trie holding the map m.  Independent of Canon and of Trav.
+\* ------------------------------------------------------------------------
+KeysUnder(m, p) == {k \in DOMAIN m : StartsWith(k, p)}
+LCPSet(S) == LET k0 == CHOOSE k \in S : TRUE
+                 n0 == CHOOSE n \in 0..Len(k0) :
+                         /\ \A k \in S : Len(k) >= n /\ Take(k, n) = Take(k0, n)
+                         /\ ~ (n < Len(k0) /\ \A k \in S : Len(k) >= n + 1
+                                                            /\ Take(k, n + 1) = Take(k0, n + 1))
+             IN Take(k0, n0)
+\* description of a traversal result; the fields of HexaryTrieNode / TraversedPartialPath
+Desc(kind, t, subs, v, suffix, trav, tail, st, ssubs, ssuffix) ==
+  [kind |-> kind, t |-> t, subs |-> subs, v |-> v, suffix |-> suffix, trav |-> trav,
+   tail |-> tail, st |-> st, ssubs |-> ssubs, ssuffix |-> ssuffix]
+DBlank == Desc("node", "blank", <<>>, NoVal, <<>>, <<>>, <<>>, "", <<>>, <<>>)
+RECURSIVE NibSubs(_, _, _)
+NibSubs(m, p, i) == IF i > 15 THEN <<>>
+                    ELSE (IF KeysUnder(m, p \o <<i>>) # {} THEN << <<i>> >> ELSE <<>>)
+                         \o NibSubs(m, p, i + 1)
+NodeAt(m, p) ==
+  LET S == KeysUnder(m, p) IN
+  IF S = {} THEN DBlank
+  ELSE LET BranchAt(b) == LET Sb == KeysUnder(m, b) IN Cardinality(Sb) >= 2 /\ LCPSet(Sb) = b
+           Bs == {n \in 0..(Len(p) - 1) : BranchAt(Take(p, n))}
+           s == IF Bs = {} THEN 0 ELSE SetMax(Bs) + 1      \* where the enclosing node starts
+           L == LCPSet(S)
+       IN IF Cardinality(S) >= 2 /\ L = p
+          THEN Desc("node", "branch", NibSubs(m, p, 0), IF p \in DOMAIN m THEN m[p] ELSE NoVal,
+                    <<>>, <<>>, <<>>, "", <<>>, <<>>)
+          ELSE IF Cardinality(S) = 1
+          THEN LET k == CHOOSE k \in S : TRUE IN
+               IF Len(p) = s THEN Desc("node", "leaf", <<>>, m[k], Drop(k, s), <<>>, <<>>, "", <<>>, <<>>)
+               ELSE Desc("partial", "leaf", <<>>, m[k], Drop(k, s), Take(p, s), Drop(p, s),
+                         "leaf", <<>>, Drop(k, Len(p)))
+          ELSE IF Len(p) = s THEN Desc("node", "ext", << Drop(L, s) >>, NoVal, <<>>, <<>>, <<>>, "", <<>>, <<>>)
+               ELSE Desc("partial", "ext", << Drop(L, s) >>, NoVal, <<>>, Take(p, s), Drop(p, s),
+                         "ext", << Drop(L, Len(p)) >>, <<>>)
+\* the same description computed from an outcome of the transcription
+Describe(o) ==
+  IF o.kind = "missing" THEN Desc("missing", o.n.t, <<>>, NoVal, <<>>, o.trav, <<>>, "", <<>>, <<>>)
+  ELSE LET a == Annot(o.n) IN
+       IF o.kind = "node" THEN Desc("node", a.t, a.subs, a.v, a.suffix, <<>>, <<>>, "", <<>>, <<>>)
+       ELSE LET sm == Annot(Sim(o)) IN
+            Desc("partial", a.t, a.subs, a.v, a.suffix, o.trav, o.tail, sm.t, sm.subs, sm.suffix)
+\* paths at which traversals are compared: every prefix of every stored key, each
+\* with one deviating nibble appended, stored keys extended by one and two nibbles
+PathsOf(K, dev) ==
+  LET pre == {<<>>} \cup UNION {{Take(k, n) : n \in 0..Len(k)} : k \in K}
+  IN pre \cup {p \o <<x>> : p \in pre, x \in dev} \cup {k \o <<x, y>> : k \in K, x \in {0}, y \in {0, 1}}
 
 \* ------------------------------------------------------------------------
 \* compact JSON forms exchanged with the harness
